@@ -14,7 +14,8 @@ RULE = (
     "with null items, nulls in non-null positions, ResolverError at arbitrary fields; explicit "
     "resolvers, dict roots and object roots served by the default resolver; three abstract-type "
     "resolution modes); every response is compared order-sensitively with the reference executor "
-    "R-EXEC and earlier requests are re-issued later in the history. "
+    "R-EXEC and earlier requests are re-issued later in the history; an eighth of the requests run on the "
+    "thread-pool runtime with a real pool and resolver latencies that decrease in document order. "
     "A third of the requests hand over a pre-parsed Document that is reused by re-issues and must "
     "print the same after every execution; a quarter of the requests re-use an earlier document of the "
     "history (the same Document object when pre-parsed) with a fresh variable payload and any of its operations; internal enum values include python Enum members; type "
@@ -127,6 +128,8 @@ def run(ctx):
             else:
                 req = exec_mon.gen_request(rng, case)
             executor = "blocking" if rng.random() < 0.6 else "generic"
+            if rng.random() < 0.12:
+                executor = "threadpool"
             out = one_request(ctx, rng, case, req, executor)
             history.append((req, executor, out))
     ctx.require("ref:ok", 100)
